@@ -1,5 +1,1417 @@
-//! (stub; being written)
-#![allow(dead_code)]
-use crate::common::Report;
-pub fn run(tier: &str) -> Report { Report::new("C16", tier, "model_checking") }
-pub fn replay(_detail: &serde_json::Value) -> i32 { 2 }
+//! C16 — any binary input ends in success or a diagnostic, never a crash (fault enumeration).
+//!
+//! Seeds (small compiler outputs per format x game class + the repository's bundled binaries) are
+//! subjected to an explicitly enumerated fault space: truncation at every offset, every offset x
+//! {00,01,7F,80,FF,b^01,b^80}, field-targeted values for every field the independent M2 walkers
+//! identify (plus instruction header fields / argument dwords derived from the walkers' instruction
+//! lists), string-field faults, and (thorough) pairs of field faults and all 256 values per offset on
+//! the smallest seeds.  Every faulted input is read + decompiled by the real truth code under several
+//! decompile option sets and (ANM) image-extracted.
+//!
+//! The real code runs in WORKER SUBPROCESSES (this same binary, `run C16 <tier>` with the environment
+//! variable `VERIF_C16_WORKER=1`, address space limited with `ulimit -v`) so that allocation aborts,
+//! stack overflows and hangs are observed as worker deaths / timeouts and attributed to the in-flight
+//! case, re-run once in a fresh worker to confirm (replay-twice rule).
+
+use std::collections::{BTreeMap, HashMap, VecDeque};
+use std::hash::Hasher;
+use std::io::{BufRead, BufReader, Cursor, Write};
+use std::path::{Path, PathBuf};
+use std::process::{Child, ChildStdin, Command, Stdio};
+use std::sync::atomic::{AtomicUsize, Ordering};
+use std::sync::{mpsc, Mutex};
+use std::time::{Duration, Instant};
+
+use serde_json::{json, Value};
+use truth::io::BinReader;
+use truth::Game;
+
+use crate::common::{catch, n_threads, Panic, Report};
+use crate::drive::{self, CompileOpts, DecompOpts, Kind, Tool};
+use crate::m2::{self, Instr, InstrLayout};
+
+const WORKER_ENV: &str = "VERIF_C16_WORKER";
+const SCRATCH_ENV: &str = "VERIF_C16_SCRATCH";
+const MARK: &str = "@C16 ";
+/// address-space limit of a worker, KiB (8 GiB)
+const ULIMIT_V_KIB: u64 = 8 << 20;
+/// a worker that does not answer for this long is killed and the in-flight case recorded as a timeout
+const ANSWER_TIMEOUT: Duration = Duration::from_secs(20);
+/// a single run that takes longer than this on an input < 4 KiB is "slow" (after confirmation)
+const SLOW_MS: u64 = 5000;
+/// peak RSS of a worker above this after a case is a "memory" violation (after confirmation)
+const RSS_LIMIT_MB: u64 = 1024;
+const BATCH: usize = 32;
+
+// run kinds (bits of a case's run mask)
+const RUN_DEFAULT: u8 = 1;
+const RUN_NO_BLOCKS: u8 = 2;
+const RUN_NO_ARGS: u8 = 4;
+const RUN_ALL_OFF: u8 = 8;
+const RUN_EXTRACT: u8 = 16;
+const RUNS: [(u8, &str, Option<u32>); 5] = [
+    (RUN_DEFAULT, "default", Some(0)),
+    (RUN_NO_BLOCKS, "no-blocks", Some(1)),
+    (RUN_NO_ARGS, "no-arguments", Some(4)),
+    (RUN_ALL_OFF, "all-off", Some(31)),
+    (RUN_EXTRACT, "extract", None),
+];
+fn run_label(bit: u8) -> &'static str { RUNS.iter().find(|r| r.0 == bit).map(|r| r.1).unwrap_or("?") }
+fn run_bit_of(label: &str) -> Option<u8> { RUNS.iter().find(|r| r.1 == label).map(|r| r.0) }
+
+// =============================================================================================
+// seeds
+
+pub struct Seed {
+    pub name: String,
+    pub kind: Kind,
+    pub game: Game,
+    pub bytes: Vec<u8>,
+    pub compiled: bool,
+}
+
+impl Seed {
+    fn display(&self) -> String { if self.compiled { format!("{}.bin", self.name) } else { self.name.clone() } }
+    fn fmt(&self) -> &'static str { fmt_name(self.kind) }
+    fn all_runs(&self) -> u8 {
+        let mut m = RUN_DEFAULT | RUN_NO_BLOCKS | RUN_NO_ARGS | RUN_ALL_OFF;
+        if self.kind == Kind::Mission { m = RUN_DEFAULT; } // mission decompilation takes no options
+        if self.kind == Kind::Anm { m |= RUN_EXTRACT; }
+        m
+    }
+}
+
+fn fmt_name(kind: Kind) -> &'static str {
+    match kind { Kind::Anm => "anm", Kind::Std => "std", Kind::Msg => "msg", Kind::End => "end", Kind::Mission => "mission", Kind::Ecl => "ecl" }
+}
+
+fn g(s: &str) -> Game { s.parse::<Game>().expect("game") }
+
+fn anm_src(game: Game, thtx: bool) -> String {
+    let old = m2::anm_has_old_header(game);
+    let entry0 = format!(r#"
+entry {{
+    path: "subdir/file.png",
+    has_data: {},
+    img_width: 8, img_height: 4, img_format: 3,
+    memory_priority: 10,
+    {}
+    sprites: {{
+        sprite0: {{id: 0, x: 0.0, y: 0.0, w: 8.0, h: 4.0}},
+        sprite1: {{id: 7, x: 1.0, y: 2.0, w: 3.0, h: 2.0}},
+    }},
+}}
+"#, if thtx { "\"dummy\"" } else { "false" },
+        if old { "path_2: \"subdir/file_a.png\", colorkey: 0x11223344," } else { "offset_x: 3, offset_y: 1, low_res_scale: true," });
+    let scripts0 = if game == Game::Th06 { r#"
+script 5 script0 {
+    ins_1(@blob="01000000");
+    loop {
+10:
+        ins_2(1.0, 2.0);
+    }
+}
+script script1 {
+    ins_3(@blob="ff000000");
+interrupt[3]:
+    ins_0();
+}
+"# } else { r#"
+script 5 script0 {
+    ins_3(@blob="01000000");
+    $REG[10000] = 2;
+    loop {
+10:
+        ins_0();
+        if ($REG[10000] == 0) break;
+        $REG[10000] = $REG[10000] - 1;
+    }
+}
+script script1 {
+    ins_0();
+interrupt[3]:
+-5:
+    ins_1();
+}
+"# };
+    let entry1 = r#"
+entry {
+    path: "b.png",
+    has_data: false,
+    img_width: 16, img_height: 16, img_format: 3,
+    memory_priority: 0,
+    sprites: { sprite8: {x: 0.0, y: 0.0, w: 16.0, h: 16.0} },
+}
+"#;
+    let scripts1 = if game == Game::Th06 { "script script2 {\n    ins_15();\n}\n" } else { "script -3 script2 {\n20:\n    ins_1();\n}\n" };
+    format!("{entry0}{scripts0}{entry1}{scripts1}")
+}
+
+fn std_src(game: Game) -> String {
+    let old = m2::std_is_06_format(game);
+    let head = if old {
+        r#"meta {
+    unknown: 7,
+    stage_name: "dm",
+    bgm: [
+        {path: "bgm/th08_08.mid", name: "dm"},
+        {path: "bgm/th08_09.mid", name: "dn"},
+        {path: " ", name: " "},
+        {path: " ", name: "x"},
+    ],"#
+    } else { "meta {\n    unknown: 7,\n    anm_path: \"stage01.anm\"," };
+    let quad2 = if matches!(game, Game::Th08 | Game::Th09) { "strip {anm_script: 5, start: [1.0, 2.0, 3.0], end: [4.0, 5.0, 6.0], width: 7.0}," }
+        else { "rect {anm_script: 5, pos: [1.0, 2.0, 3.0], size: [4.0, 5.0]}," };
+    let objects = format!(r#"
+    objects: {{
+        thing: {{
+            layer: 4,
+            pos: [10.0, 20.0, 30.0],
+            size: [11.0, 21.0, 31.0],
+            quads: [
+                rect {{anm_script: 3, pos: [1.0, 2.0, 3.0], size: [4.0, 5.0]}},
+                {quad2}
+            ],
+        }},
+        empty: {{ layer: 0, pos: [0.0, 0.0, 0.0], size: [0.0, 0.0, 0.0], quads: [] }},
+    }},
+    instances: [
+        empty {{pos: [1.0, 2.0, 3.0]}},
+        thing {{unknown: 5, pos: [4.0, 5.0, 6.0]}},
+    ],
+}}
+"#);
+    let script = if game == Game::Th06 {
+        "script main {\n    ins_0(1.0, 2.0, 3.0);\n10:\n    ins_3(@blob=\"01000000 02000000 03000000\");\ninterrupt[2]:\n30:\n    ins_2(1.0, 2.0, 3.0);\n}\n"
+    } else if old {
+        "script main {\n    ins_0(1.0, 2.0, 3.0);\n    loop {\n10:\n        ins_2(@blob=\"01000000 02000000 03000000\");\n+20:\n    }\n}\n"
+    } else {
+        "script main {\n    ins_2(1.0, 2.0, 3.0);\n    loop {\n10:\n        ins_3(@blob=\"01000000 02000000 03000000 04000000 05000000\");\n+20:\n        ins_0();\n    }\n}\n"
+    };
+    format!("{head}{objects}{script}")
+}
+
+fn msg_src(game: Game) -> String {
+    let fl = m2::msg_table_has_flags(game);
+    let table = format!(r#"
+meta {{
+    table: {{
+        0: {{script: "script0"{}}},
+        1: {{script: "other"{}}},
+        3: {{script: "script0"}},
+        {}
+    }}
+}}
+"#, if fl { ", flags: 256" } else { "" }, if fl { ", flags: 3" } else { "" }, if fl { "default: {script: \"other\"}," } else { "" });
+    let body = match game {
+        Game::Th06 => r#"
+script script0 {
+    ins_1(1, 2);
+10:
+    ins_3(0, 1, "abc");
+    ins_4(60);
+}
+script other {
+    ins_0();
+    ins_8(1, 0, "defgh");
+5:
+    ins_13(true);
+}
+"#,
+        Game::Th09 => r#"
+script script0 {
+    ins_1(1);
+10:
+    ins_3(0, 1, "abc");
+    ins_4(60);
+}
+script other {
+    ins_0();
+    ins_16("defgh");
+5:
+    ins_15(1, 2, 3);
+}
+"#,
+        _ => r#"
+script script0 {
+    ins_10(60);
+10:
+    ins_15("abc");
+    ins_16("de|0,3,fg");
+}
+script other {
+    ins_0();
+    ins_17("defgh");
+5:
+    ins_27(1.5);
+}
+"#,
+    };
+    format!("{table}{body}")
+}
+
+const END_SRC: &str = r#"
+meta {
+    table: {
+        0: {script: "main"},
+    }
+}
+script main {
+    ins_5(60);
+10:
+    ins_3("abc");
+    ins_7(2, "e01.png");
+    ins_9(#ff8040c0);
+    ins_0();
+}
+"#;
+
+const MISSION_095: &str = r#"
+entry { stage: 1, scene: 2, face: 3, point: 4, text: ["abc", "", "line three"] }
+entry { stage: 10, scene: 6, face: 0, point: 1234567, text: ["x", "y", "z"] }
+"#;
+const MISSION_125: &str = r#"
+entry { stage: 1, scene: 2, player: 1, unknown_1: 7, unknown_2: 9, point_1: 3, point_2: 4,
+        furigana: [[1, 2], [3, 4], [5, 6]], text: ["abc", "", "line three", "d", "e", "f"] }
+entry { stage: 10, scene: 6, player: 0, unknown_1: 0, unknown_2: 0, point_1: 0, point_2: 1234567,
+        furigana: [[0, 0], [0, 0], [0, 0]], text: ["x", "y", "z", "", "", ""] }
+"#;
+
+fn ecl_src(game: Game) -> String {
+    let tl0 = r#"
+script timeline0 {
+    ins_0(@arg0=1, @blob="00000000 0000803f 00000040 04000300 02000000");
+10:
+    ins_10(@arg0=0, @blob="01000000 02000000");
+}
+"#;
+    let tl1 = "script timeline1 {\n7:\n    ins_10(@arg0=4, @blob=\"01000000 02000000\");\n}\n";
+    let (reg, call) = match game {
+        Game::Th06 => ("$REG[-10001]", "ins_35(sub1, 3, 1.5);"),
+        Game::Th07 => ("$REG[10000]", "ins_41(sub1);"),
+        _ => ("$REG[10000]", "ins_52(sub1);"),
+    };
+    let subs = format!(r#"
+void sub0() {{
+    {reg} = 3;
+top:
+5:
+    ins_1(@blob="00000000");
+    {reg} = {reg} - 1;
+    if ({reg} != 0) goto top;
+    {call}
+}}
+void sub1() {{
+20:
+    ins_0();
+}}
+"#);
+    let mut s = String::from(tl0);
+    if game != Game::Th06 { s += tl1; }
+    s += &subs;
+    s
+}
+
+const ECL10_SRC: &str = r#"
+meta {
+    ecli: [],
+    anim: [],
+}
+void main() {
+    ins_10();
+}
+"#;
+
+/// (name, kind, game, source, required)
+fn compiled_seed_sources() -> Vec<(String, Kind, Game, String, bool)> {
+    let mut v = vec![];
+    for gm in ["th06", "th07", "th12", "th17"] {
+        v.push((format!("c-anm-{gm}"), Kind::Anm, g(gm), anm_src(g(gm), false), true));
+        v.push((format!("c-anm-{gm}-thtx"), Kind::Anm, g(gm), anm_src(g(gm), true), true));
+    }
+    for gm in ["th06", "th08", "th12"] { v.push((format!("c-std-{gm}"), Kind::Std, g(gm), std_src(g(gm)), true)); }
+    for gm in ["th06", "th09", "th12"] { v.push((format!("c-msg-{gm}"), Kind::Msg, g(gm), msg_src(g(gm)), true)); }
+    v.push(("c-end-th10".into(), Kind::End, g("th10"), END_SRC.to_string(), false));
+    v.push(("c-mission-th095".into(), Kind::Mission, g("th095"), MISSION_095.to_string(), true));
+    v.push(("c-mission-th125".into(), Kind::Mission, g("th125"), MISSION_125.to_string(), true));
+    for gm in ["th06", "th07", "th08", "th095"] { v.push((format!("c-ecl-{gm}"), Kind::Ecl, g(gm), ecl_src(g(gm)), true)); }
+    v.push(("c-ecl-th10".into(), Kind::Ecl, g("th10"), ECL10_SRC.to_string(), false));
+    v
+}
+
+/// Deterministic seed list (built identically by the parent and by every worker).
+/// Returns (seeds, notes about optional seeds that could not be produced, hard errors).
+fn build_seeds() -> (Vec<Seed>, Vec<String>, Vec<String>) {
+    let mut seeds: Vec<Seed> = vec![];
+    let (mut notes, mut errors) = (vec![], vec![]);
+    for (name, kind, game, src, required) in compiled_seed_sources() {
+        let out = drive::compile(Tool::new(kind, game), src.as_bytes(), &CompileOpts::default());
+        match out.bytes {
+            Some(bytes) => seeds.push(Seed { name, kind, game, bytes, compiled: true }),
+            None => {
+                let msg = format!("seed {name} did not compile: {}{}", out.diag.lines().take(8).collect::<Vec<_>>().join(" | "),
+                    out.panic.map(|p| format!(" PANIC {}", p.text)).unwrap_or_default());
+                if required { errors.push(msg) } else { notes.push(msg) }
+            },
+        }
+    }
+    let mut paths: Vec<PathBuf> = vec![];
+    for dir in ["/repo/tests/integration/bits-2-bits", "/repo/tests/integration/resources"] {
+        match std::fs::read_dir(dir) {
+            Ok(rd) => paths.extend(rd.filter_map(|e| e.ok()).map(|e| e.path()).filter(|p| p.is_file())),
+            Err(e) => errors.push(format!("cannot list {dir}: {e}")),
+        }
+    }
+    paths.sort_by(|a, b| a.file_name().cmp(&b.file_name()));
+    for p in paths {
+        let name = p.file_name().unwrap().to_string_lossy().to_string();
+        let kind = match p.extension().and_then(|e| e.to_str()) { Some("anm") => Kind::Anm, Some("std") => Kind::Std, Some("msg") => Kind::Msg, _ => continue };
+        let game = match name.split('-').next().and_then(|s| s.parse::<Game>().ok()) { Some(gm) => gm, None => { errors.push(format!("no game prefix in {name}")); continue } };
+        match std::fs::read(&p) {
+            Ok(bytes) => {
+                if seeds.iter().any(|s| s.kind == kind && s.game == game && s.bytes == bytes) { notes.push(format!("bundled {name}: identical to an earlier seed; skipped")); continue; }
+                if seeds.iter().any(|s| s.name == name) { notes.push(format!("bundled {name}: duplicate name; skipped")); continue; }
+                seeds.push(Seed { name, kind, game, bytes, compiled: false });
+            },
+            Err(e) => errors.push(format!("cannot read {}: {e}", p.display())),
+        }
+    }
+    (seeds, notes, errors)
+}
+
+fn seeds_digest(seeds: &[Seed]) -> String {
+    let mut h = Fnv::new();
+    for s in seeds { h.write(s.name.as_bytes()); h.write(&(s.bytes.len() as u64).to_le_bytes()); h.write(&s.bytes); }
+    format!("{}:{:016x}", seeds.len(), h.finish())
+}
+
+// =============================================================================================
+// structure map (fields) of a seed, from the independent M2 walkers
+
+#[derive(Debug, Clone, PartialEq, Eq, Hash)]
+struct Field { name: &'static str, off: usize, width: usize }
+
+fn instr_header_fields(layout: InstrLayout) -> &'static [(&'static str, usize, usize)] {
+    match layout {
+        InstrLayout::Anm06 | InstrLayout::Msg => &[("instr.time", 0, 2), ("instr.opcode", 2, 1), ("instr.size", 3, 1)],
+        InstrLayout::Anm07 => &[("instr.opcode", 0, 2), ("instr.size", 2, 2), ("instr.time", 4, 2), ("instr.param_mask", 6, 2)],
+        InstrLayout::Std06 | InstrLayout::Std10 => &[("instr.time", 0, 4), ("instr.opcode", 4, 2), ("instr.size", 6, 2)],
+        InstrLayout::Ecl06 | InstrLayout::Ecl07 => &[("instr.time", 0, 4), ("instr.opcode", 4, 2), ("instr.size", 6, 2), ("instr.zero", 8, 1), ("instr.difficulty", 9, 1), ("instr.param_mask", 10, 2)],
+        InstrLayout::Timeline06 => &[("instr.time", 0, 2), ("instr.arg0", 2, 2), ("instr.opcode", 4, 2), ("instr.size", 6, 2)],
+        InstrLayout::Timeline08 => &[("instr.time", 0, 4), ("instr.opcode", 4, 2), ("instr.size", 6, 1), ("instr.difficulty", 7, 1)],
+    }
+}
+
+fn push_region_dwords(out: &mut Vec<Field>, name: &'static str, start: usize, len: usize, file_len: usize) {
+    let mut o = start;
+    let end = (start + len).min(file_len);
+    while o < end {
+        let w = if end - o >= 4 { 4 } else if end - o >= 2 { 2 } else { 1 };
+        out.push(Field { name, off: o, width: w });
+        o += w;
+    }
+}
+
+fn push_instr_fields(out: &mut Vec<Field>, instrs: &[Instr], layout: InstrLayout, terminal: Option<(usize, usize)>, file_len: usize) {
+    let hs = layout.header_size();
+    for ins in instrs {
+        for &(name, rel, w) in instr_header_fields(layout) {
+            if ins.offset + rel + w <= file_len { out.push(Field { name, off: ins.offset + rel, width: w }); }
+        }
+        push_region_dwords(out, "instr.arg", ins.offset + hs, ins.args.len(), file_len);
+    }
+    if let Some((off, size)) = terminal {
+        for &(name, rel, w) in instr_header_fields(layout) {
+            if rel + w <= size && off + rel + w <= file_len {
+                let name: &'static str = match name { "instr.time" => "terminal.time", "instr.opcode" => "terminal.opcode", "instr.size" => "terminal.size", _ => "terminal.other" };
+                out.push(Field { name, off: off + rel, width: w });
+            }
+        }
+    }
+}
+
+/// All (name, offset, width) fields of a seed; Err if the walker rejects the seed.
+fn seed_fields(seed: &Seed) -> Result<Vec<Field>, String> {
+    let b = &seed.bytes[..];
+    let n = b.len();
+    let mut out: Vec<Field> = vec![];
+    let mut push_fo = |out: &mut Vec<Field>, fo: &m2::FieldOffsets| for &(name, off, width) in fo { if off + width <= n && width > 0 { out.push(Field { name, off, width }); } };
+    match seed.kind {
+        Kind::Anm => {
+            let layout = m2::anm_instr_layout(seed.game);
+            for e in m2::walk_anm(b, seed.game)? {
+                push_fo(&mut out, &e.field_offsets);
+                for s in &e.scripts { push_instr_fields(&mut out, &s.instrs, layout, s.terminal, n); }
+            }
+        },
+        Kind::Std => {
+            let w = m2::walk_std(b, seed.game)?;
+            push_fo(&mut out, &w.field_offsets);
+            push_instr_fields(&mut out, &w.script, m2::std_instr_layout(seed.game), w.script_terminal, n);
+        },
+        Kind::Msg | Kind::End => {
+            let w = m2::walk_msg(b, seed.game, seed.kind == Kind::End)?;
+            push_fo(&mut out, &w.field_offsets);
+            for (i, (_, instrs, _)) in w.scripts.iter().enumerate() {
+                push_instr_fields(&mut out, instrs, InstrLayout::Msg, w.terminals.get(i).copied().flatten(), n);
+            }
+        },
+        Kind::Mission => {
+            let w = m2::walk_mission(b, seed.game)?;
+            push_fo(&mut out, &w.field_offsets);
+        },
+        Kind::Ecl => {
+            let w = m2::walk_ecl(b, seed.game)?;
+            push_fo(&mut out, &w.field_offsets);
+            for (i, s) in w.subs.iter().enumerate() {
+                let term = w.sub_ends.get(i).and_then(|&e| e.checked_sub(w.sub_layout.header_size())).map(|o| (o, w.sub_layout.header_size()));
+                push_instr_fields(&mut out, s, w.sub_layout, term, n);
+            }
+            for (i, s) in w.timelines.iter().enumerate() {
+                let ts = if w.timeline_layout == InstrLayout::Timeline06 { 4 } else { 8 };
+                let term = w.timeline_ends.get(i).and_then(|&e| e.checked_sub(ts)).map(|o| (o, ts));
+                push_instr_fields(&mut out, s, w.timeline_layout, term, n);
+            }
+        },
+    }
+    // dedupe by (off, width), keeping the first name
+    let mut seen = std::collections::HashSet::new();
+    out.retain(|f| seen.insert((f.off, f.width)));
+    Ok(out)
+}
+
+// =============================================================================================
+// faults
+
+#[derive(Debug, Clone, PartialEq, Eq)]
+enum Op {
+    /// keep only the first n bytes
+    Trunc(usize),
+    /// little-endian value of `width` (1..=8) bytes at `off`
+    Set { off: usize, width: usize, val: u64 },
+    /// fill `len` bytes at `off` with `byte`
+    Fill { off: usize, len: usize, byte: u8 },
+}
+
+fn fault_to_string(ops: &[Op]) -> String {
+    if ops.is_empty() { return "n".into(); }
+    ops.iter().map(|op| match op {
+        Op::Trunc(n) => format!("t{n}"),
+        Op::Set { off, width, val } => format!("s{off}:{width}:{val:x}"),
+        Op::Fill { off, len, byte } => format!("f{off}:{len}:{byte:x}"),
+    }).collect::<Vec<_>>().join("+")
+}
+
+fn fault_from_string(s: &str) -> Result<Vec<Op>, String> {
+    if s == "n" { return Ok(vec![]); }
+    let mut ops = vec![];
+    for part in s.split('+') {
+        let bad = || format!("bad fault descriptor {part:?}");
+        if part.len() < 2 || !part.is_char_boundary(1) { return Err(bad()); }
+        let (tag, rest) = part.split_at(1);
+        let nums: Vec<&str> = rest.split(':').collect();
+        match (tag, nums.len()) {
+            ("t", 1) => ops.push(Op::Trunc(nums[0].parse().map_err(|_| bad())?)),
+            ("s", 3) => ops.push(Op::Set { off: nums[0].parse().map_err(|_| bad())?, width: nums[1].parse().map_err(|_| bad())?, val: u64::from_str_radix(nums[2], 16).map_err(|_| bad())? }),
+            ("f", 3) => ops.push(Op::Fill { off: nums[0].parse().map_err(|_| bad())?, len: nums[1].parse().map_err(|_| bad())?, byte: u8::from_str_radix(nums[2], 16).map_err(|_| bad())? }),
+            _ => return Err(bad()),
+        }
+    }
+    Ok(ops)
+}
+
+fn apply_fault(seed: &[u8], ops: &[Op]) -> Vec<u8> {
+    let mut b = seed.to_vec();
+    for op in ops {
+        match *op {
+            Op::Trunc(n) => b.truncate(n),
+            Op::Set { off, width, val } => for k in 0..width.min(8) { if let Some(x) = b.get_mut(off + k) { *x = (val >> (8 * k)) as u8; } },
+            Op::Fill { off, len, byte } => for k in 0..len { if let Some(x) = b.get_mut(off + k) { *x = byte; } },
+        }
+    }
+    b
+}
+
+fn read_le(b: &[u8], off: usize, width: usize) -> u64 {
+    let mut v = 0u64;
+    for k in 0..width.min(8) { v |= (*b.get(off + k).unwrap_or(&0) as u64) << (8 * k); }
+    v
+}
+
+fn width_mask(width: usize) -> u64 { if width >= 8 { u64::MAX } else { (1u64 << (8 * width)) - 1 } }
+
+/// the field-targeted values of the design, truncated to the field width
+fn field_values(v: u64, width: usize, file_len: usize) -> Vec<u64> {
+    let m = width_mask(width);
+    let fl = file_len as u64;
+    let raw = [0, 1, v.wrapping_sub(1), v.wrapping_add(1), 0x7FFF, 0x8000, 0xFFFF, 0x7FFF_FFFF, 0x8000_0000, 0xFFFF_FFFF, fl, fl.wrapping_sub(1), fl + 1];
+    let mut out: Vec<u64> = vec![];
+    for x in raw { let x = x & m; if x != v && !out.contains(&x) { out.push(x); } }
+    out
+}
+
+/// the reduced value set used for pairs of field faults
+fn pair_values(v: u64, width: usize, file_len: usize) -> Vec<u64> {
+    let m = width_mask(width);
+    let raw = [0, v.wrapping_add(1), m >> 1, m, file_len as u64];
+    let mut out: Vec<u64> = vec![];
+    for x in raw { let x = x & m; if x != v && !out.contains(&x) { out.push(x); } }
+    out
+}
+
+struct Fnv(u64);
+impl Fnv {
+    fn new() -> Fnv { Fnv(0xcbf29ce484222325) }
+    fn write(&mut self, b: &[u8]) { for &x in b { self.0 ^= x as u64; self.0 = self.0.wrapping_mul(0x100000001b3); } }
+    fn finish(&self) -> u64 { self.0 }
+}
+
+fn hash128(b: &[u8]) -> (u64, u64) {
+    let mut f = Fnv::new();
+    f.write(b);
+    f.write(&(b.len() as u64).to_le_bytes());
+    let mut s = std::collections::hash_map::DefaultHasher::new();
+    s.write(b);
+    (f.finish(), s.finish())
+}
+
+// =============================================================================================
+// case = (seed, fault, runs); generation
+
+#[derive(Debug, Clone)]
+struct Case {
+    id: u64,
+    seed: usize,
+    ops: Vec<Op>,
+    /// interned fault class
+    class: u32,
+    runs: u8,
+}
+
+struct Interner { names: Vec<String>, map: HashMap<String, u32> }
+impl Interner {
+    fn new() -> Self { Interner { names: vec![], map: HashMap::new() } }
+    fn id(&mut self, s: &str) -> u32 {
+        if let Some(&i) = self.map.get(s) { return i; }
+        let i = self.names.len() as u32;
+        self.names.push(s.to_string());
+        self.map.insert(s.to_string(), i);
+        i
+    }
+    fn name(&self, i: u32) -> &str { &self.names[i as usize] }
+}
+
+/// per-seed generation state: which byte strings were already scheduled, and with which runs
+struct SeedState {
+    fields: Vec<Field>,
+    /// field covering each byte offset (index into fields) for naming byte faults
+    cover: Vec<Option<u32>>,
+    done: HashMap<(u64, u64), u8>,
+    walker_error: Option<String>,
+}
+
+struct Gen<'a> {
+    seeds: &'a [Seed],
+    states: Vec<SeedState>,
+    classes: Interner,
+    next_id: u64,
+    /// number of distinct faulted byte strings scheduled
+    distinct: u64,
+    /// generated faults that were byte-identical to an already scheduled input (or the seed)
+    duplicates: u64,
+}
+
+impl<'a> Gen<'a> {
+    fn new(seeds: &'a [Seed]) -> Self {
+        let states = seeds.iter().map(|s| {
+            let (fields, walker_error) = match catch(|| seed_fields(s)) {
+                Ok(Ok(f)) => (f, None),
+                Ok(Err(e)) => (vec![], Some(e)),
+                Err(p) => (vec![], Some(format!("walker panicked: {}", p.text))),
+            };
+            let mut cover = vec![None; s.bytes.len()];
+            for (i, f) in fields.iter().enumerate() { for k in f.off..(f.off + f.width).min(cover.len()) { if cover[k].is_none() { cover[k] = Some(i as u32); } } }
+            SeedState { fields, cover, done: HashMap::new(), walker_error }
+        }).collect();
+        Gen { seeds, states, classes: Interner::new(), next_id: 0, distinct: 0, duplicates: 0 }
+    }
+
+    /// schedule a fault with the wanted runs; returns a case for the runs not yet scheduled on this byte string
+    fn add(&mut self, out: &mut Vec<Case>, seed: usize, ops: Vec<Op>, class: &str, runs: u8) {
+        let runs = runs & self.seeds[seed].all_runs();
+        if runs == 0 { return; }
+        let bytes = apply_fault(&self.seeds[seed].bytes, &ops);
+        let h = hash128(&bytes);
+        let st = &mut self.states[seed];
+        let prev = st.done.get(&h).copied();
+        let todo = runs & !prev.unwrap_or(0);
+        if prev.is_none() { self.distinct += 1; }
+        if todo == 0 { self.duplicates += 1; return; }
+        st.done.insert(h, prev.unwrap_or(0) | todo);
+        let class = self.classes.id(class);
+        out.push(Case { id: self.next_id, seed, ops, class, runs: todo });
+        self.next_id += 1;
+    }
+
+    fn byte_class(&self, seed: usize, off: usize) -> String {
+        match self.states[seed].cover.get(off).copied().flatten() {
+            Some(i) => format!("byte:{}", self.states[seed].fields[i as usize].name),
+            None => "byte:unmapped".to_string(),
+        }
+    }
+
+    fn baseline(&mut self, seed: usize) -> Vec<Case> {
+        let mut out = vec![];
+        let all = self.seeds[seed].all_runs();
+        self.add(&mut out, seed, vec![], "none", all);
+        out
+    }
+
+    /// the quick-tier fault set of one seed (`full_opts`: thorough tier runs every option set on every fault)
+    fn primary(&mut self, seed: usize, full_opts: bool) -> Vec<Case> {
+        let mut out = vec![];
+        let n = self.seeds[seed].bytes.len();
+        let all = self.seeds[seed].all_runs();
+        let light = if full_opts { all } else { all & (RUN_DEFAULT | RUN_EXTRACT) };
+        let large = n > 4096;
+        // truncations
+        let trunc_offsets: Vec<usize> = if !large { (0..n).collect() } else {
+            let stride = (n + 1023) / 1024;
+            let mut v: Vec<usize> = (0..n).filter(|&o| o < 256 || o + 32 >= n || o % stride == 0).collect();
+            let fo: Vec<usize> = self.states[seed].fields.iter().flat_map(|f| [f.off, f.off + f.width]).filter(|&o| o < n).collect();
+            v.extend(fo);
+            v.sort(); v.dedup();
+            v
+        };
+        for o in trunc_offsets { self.add(&mut out, seed, vec![Op::Trunc(o)], "truncate", all); }
+        // field-targeted values
+        let fields = self.states[seed].fields.clone();
+        for f in &fields {
+            let cls = format!("field:{}", f.name);
+            if f.width <= 4 {
+                let v = read_le(&self.seeds[seed].bytes, f.off, f.width);
+                for x in field_values(v, f.width, n) { self.add(&mut out, seed, vec![Op::Set { off: f.off, width: f.width, val: x }], &cls, all); }
+            } else {
+                // byte-string fields (names, paths, text): emptied, unterminated, high bytes
+                let cls = format!("string:{}", f.name);
+                let first_nul = (0..f.width).find(|&k| self.seeds[seed].bytes[f.off + k] == 0).unwrap_or(f.width);
+                for byte in [0x00u8, 0x41, 0x80, 0xFF] { self.add(&mut out, seed, vec![Op::Fill { off: f.off, len: f.width, byte }], &cls, all); }
+                self.add(&mut out, seed, vec![Op::Set { off: f.off, width: 1, val: 0 }], &cls, all);
+                if first_nul < f.width {
+                    self.add(&mut out, seed, vec![Op::Fill { off: f.off + first_nul, len: f.width - first_nul, byte: 0x41 }], &cls, all);
+                    self.add(&mut out, seed, vec![Op::Fill { off: f.off + first_nul, len: f.width - first_nul, byte: 0xFF }], &cls, all);
+                }
+                self.add(&mut out, seed, vec![Op::Set { off: f.off + f.width - 1, width: 1, val: 0x41 }], &cls, all);
+            }
+        }
+        // every offset x {00, 01, 7F, 80, FF, b^01, b^80}
+        if !large {
+            for o in 0..n {
+                let b = self.seeds[seed].bytes[o];
+                let cls = self.byte_class(seed, o);
+                for x in [0x00, 0x01, 0x7F, 0x80, 0xFF, b ^ 0x01, b ^ 0x80] {
+                    if x != b { self.add(&mut out, seed, vec![Op::Set { off: o, width: 1, val: x as u64 }], &cls, light); }
+                }
+            }
+        }
+        out
+    }
+
+    /// thorough: every offset x all 256 byte values
+    fn all_values(&mut self, seed: usize) -> Vec<Case> {
+        let mut out = vec![];
+        let all = self.seeds[seed].all_runs();
+        for o in 0..self.seeds[seed].bytes.len() {
+            let cls = self.byte_class(seed, o);
+            for x in 0..=255u8 { self.add(&mut out, seed, vec![Op::Set { off: o, width: 1, val: x as u64 }], &cls, all); }
+        }
+        out
+    }
+
+    /// thorough: pairs of field faults (distinct fields, reduced value set)
+    fn pairs(&mut self, seed: usize, max_cases: usize) -> (Vec<Case>, bool) {
+        let mut out = vec![];
+        let n = self.seeds[seed].bytes.len();
+        let runs = self.seeds[seed].all_runs() & (RUN_DEFAULT | RUN_EXTRACT);
+        let fields: Vec<Field> = self.states[seed].fields.iter().filter(|f| f.width <= 4).cloned().collect();
+        let vals: Vec<Vec<u64>> = fields.iter().map(|f| pair_values(read_le(&self.seeds[seed].bytes, f.off, f.width), f.width, n)).collect();
+        let mut capped = false;
+        'outer: for i in 0..fields.len() {
+            for j in (i + 1)..fields.len() {
+                let cls = format!("pair:{}+{}", fields[i].name, fields[j].name);
+                for &a in &vals[i] { for &b in &vals[j] {
+                    if out.len() >= max_cases { capped = true; break 'outer; }
+                    self.add(&mut out, seed, vec![Op::Set { off: fields[i].off, width: fields[i].width, val: a }, Op::Set { off: fields[j].off, width: fields[j].width, val: b }], &cls, runs);
+                } }
+            }
+        }
+        (out, capped)
+    }
+}
+
+// =============================================================================================
+// executing one run of the real code (worker side)
+
+struct RunOut { bit: u8, class: String, viol: Option<String>, ms: u64, diag: String }
+
+fn squash_digits(s: &str) -> String {
+    // 0x<hex> -> 0xN, digit runs -> N
+    let b: Vec<char> = s.chars().collect();
+    let mut out = String::new();
+    let mut i = 0;
+    while i < b.len() {
+        if b[i] == '0' && i + 1 < b.len() && (b[i + 1] == 'x' || b[i + 1] == 'X') && i + 2 < b.len() && b[i + 2].is_ascii_hexdigit() {
+            out.push_str("0xN");
+            i += 2;
+            while i < b.len() && b[i].is_ascii_hexdigit() { i += 1; }
+        } else if b[i].is_ascii_digit() {
+            out.push('N');
+            while i < b.len() && b[i].is_ascii_digit() { i += 1; }
+        } else { out.push(b[i]); i += 1; }
+    }
+    out
+}
+
+fn norm_line(line: &str, display: &str) -> String {
+    let s = line.replace(display, "<file>");
+    let s = squash_digits(&s);
+    s.chars().take(100).collect()
+}
+
+fn classify(fmt: &str, display: &str, ok: bool, diag: &str, panic: Option<Panic>) -> (String, Option<String>) {
+    if let Some(p) = panic {
+        return ("panic".into(), Some(format!("C16:{fmt}:{}", p.signature())));
+    }
+    if ok {
+        let warn = diag.lines().any(|l| l.starts_with("warning"));
+        return (if warn { "ok+warning".into() } else { "ok".into() }, None);
+    }
+    match diag.lines().find(|l| l.starts_with("error") || l.starts_with("bug")) {
+        None => {
+            let first = diag.lines().find(|l| !l.trim().is_empty()).unwrap_or("<no diagnostic at all>");
+            ("err-without-error-diagnostic".into(), Some(format!("C16:{fmt}:error-without-error-diagnostic:{}", norm_line(first, display))))
+        },
+        Some(l) => {
+            let cls = format!("err:{}", norm_line(l, display));
+            let viol = if diag.contains(display) { None } else { Some(format!("C16:{fmt}:error-not-naming-file:{}", norm_line(l, display))) };
+            (cls, viol)
+        },
+    }
+}
+
+/// Mirror of `cli_def::anm_extract::run` on in-memory input: read with images, extract into `dir`.
+fn extract_in_process(game: Game, bytes: &[u8], display: &str, dir: &Path) -> (bool, String, Option<Panic>) {
+    let mut scope = truth::Builder::new().capture_diagnostics(true).build();
+    let mut truth = scope.truth();
+    let r = catch(|| -> Result<(), ()> {
+        macro_rules! t { ($e:expr) => { match $e { Ok(v) => v, Err(e) => { let e: truth::ErrorReported = e; e.ignore(); return Err(()); } } } }
+        let emitter = truth.ctx().emitter;
+        let tv = t!(truth.validate_defs());
+        let mut r = BinReader::from_reader(emitter, display, Cursor::new(bytes.to_vec()));
+        let anm = t!(truth::AnmFile::read_from_stream(&mut r, game, true));
+        let fs = tv.fs();
+        t!(anm.extract_images(dir, &fs));
+        Ok(())
+    });
+    let diag = catch(|| truth.get_captured_diagnostics().unwrap_or_default()).unwrap_or_else(|p| format!("<diagnostic rendering panicked: {}>", p.text));
+    match r { Ok(Ok(())) => (true, diag, None), Ok(Err(())) => (false, diag, None), Err(p) => (false, diag, Some(p)) }
+}
+
+fn exec_run(seed: &Seed, bytes: &[u8], bit: u8, scratch: &Path) -> RunOut {
+    let display = seed.display();
+    let t0 = Instant::now();
+    let (ok, diag, panic) = match RUNS.iter().find(|r| r.0 == bit).and_then(|r| r.2) {
+        Some(optbits) => {
+            let o = drive::decompile(Tool::new(seed.kind, seed.game), bytes, &DecompOpts { options: drive::options_from_bits(optbits), display_name: &display, ..Default::default() });
+            (o.text.is_some(), o.diag, o.panic)
+        },
+        None => {
+            let dir = scratch.join("x");
+            let _ = std::fs::create_dir_all(&dir);
+            let r = extract_in_process(seed.game, bytes, &display, &dir);
+            let _ = std::fs::remove_dir_all(&dir);
+            r
+        },
+    };
+    let ms = t0.elapsed().as_millis() as u64;
+    let (class, viol) = classify(seed.fmt(), &display, ok, &diag, panic);
+    RunOut { bit, class, viol, ms, diag }
+}
+
+fn vm_hwm_mb() -> Option<u64> {
+    let s = std::fs::read_to_string("/proc/self/status").ok()?;
+    let l = s.lines().find(|l| l.starts_with("VmHWM:"))?;
+    let kb: u64 = l.split_whitespace().nth(1)?.parse().ok()?;
+    Some(kb / 1024)
+}
+fn reset_hwm() { let _ = std::fs::write("/proc/self/clear_refs", "5"); }
+
+fn worker_main() -> ! {
+    let (seeds, _notes, errors) = build_seeds();
+    let scratch: PathBuf = std::env::var(SCRATCH_ENV).map(PathBuf::from).unwrap_or_else(|_| drive::scratch_dir());
+    let _ = std::fs::create_dir_all(&scratch);
+    let stdout = std::io::stdout();
+    {
+        let mut o = stdout.lock();
+        let _ = writeln!(o, "{MARK}{}", json!({"hello": seeds_digest(&seeds), "errors": errors}));
+        let _ = o.flush();
+    }
+    let stdin = std::io::stdin();
+    let mut line = String::new();
+    loop {
+        line.clear();
+        match stdin.lock().read_line(&mut line) { Ok(0) | Err(_) => break, Ok(_) => {} }
+        let parts: Vec<&str> = line.split_whitespace().collect();
+        if parts.is_empty() { continue; }
+        let reply = (|| -> Result<Value, String> {
+            if parts.len() != 4 { return Err(format!("bad case line {line:?}")); }
+            let id: u64 = parts[0].parse().map_err(|_| "bad id".to_string())?;
+            let si: usize = parts[1].parse().map_err(|_| "bad seed index".to_string())?;
+            let seed = seeds.get(si).ok_or("seed index out of range")?;
+            let ops = fault_from_string(parts[2])?;
+            let runs: u8 = parts[3].parse().map_err(|_| "bad run mask".to_string())?;
+            let bytes = apply_fault(&seed.bytes, &ops);
+            let t0 = Instant::now();
+            let mut rs = vec![];
+            for &(bit, _, _) in RUNS.iter() {
+                if runs & bit == 0 { continue; }
+                let r = exec_run(seed, &bytes, bit, &scratch);
+                let diag = if r.viol.is_some() { Value::String(r.diag.lines().take(6).collect::<Vec<_>>().join("\n")) } else { Value::Null };
+                rs.push(json!([r.bit, r.class, r.viol, r.ms, diag]));
+            }
+            // peak RSS: a blow-up of RSS_LIMIT_MB necessarily takes longer than a few ms
+            let mut hwm = Value::Null;
+            if t0.elapsed() > Duration::from_millis(3) {
+                if let Some(mb) = vm_hwm_mb() { if mb > RSS_LIMIT_MB { hwm = json!(mb); reset_hwm(); } }
+            }
+            Ok(json!({"i": id, "r": rs, "m": hwm}))
+        })();
+        let v = match reply { Ok(v) => v, Err(e) => json!({"i": parts[0].parse::<u64>().unwrap_or(u64::MAX), "e": e}) };
+        let mut o = stdout.lock();
+        let _ = writeln!(o, "{MARK}{v}");
+        let _ = o.flush();
+    }
+    let _ = std::fs::remove_dir_all(&scratch);
+    std::process::exit(0)
+}
+
+// =============================================================================================
+// parent side: workers and the pool
+
+struct Worker {
+    child: Child,
+    stdin: Option<ChildStdin>,
+    rx: mpsc::Receiver<Option<String>>,
+    stderr_path: PathBuf,
+    scratch: PathBuf,
+}
+
+static WORKER_SEQ: AtomicUsize = AtomicUsize::new(0);
+
+fn spawn_worker(tier: &str, digest: &str) -> Result<Worker, String> {
+    let n = WORKER_SEQ.fetch_add(1, Ordering::Relaxed);
+    let base = drive::scratch_dir().join("c16");
+    let _ = std::fs::create_dir_all(&base);
+    let scratch = base.join(format!("w{n}"));
+    let stderr_path = base.join(format!("w{n}.stderr"));
+    let stderr_file = std::fs::File::create(&stderr_path).map_err(|e| format!("create {}: {e}", stderr_path.display()))?;
+    let exe = drive::exe_snapshot();
+    let mut cmd = Command::new("sh");
+    cmd.arg("-c").arg(format!("ulimit -v {ULIMIT_V_KIB} || exit 97; exec \"$0\" \"$@\""))
+        .arg(&exe).arg("run").arg("C16").arg(tier)
+        .env(WORKER_ENV, "1").env(SCRATCH_ENV, &scratch).env("RUST_BACKTRACE", "0").env_remove("TRUTH_MAP_PATH")
+        .stdin(Stdio::piped()).stdout(Stdio::piped()).stderr(Stdio::from(stderr_file));
+    let mut child = cmd.spawn().map_err(|e| format!("spawn worker: {e}"))?;
+    let stdin = child.stdin.take();
+    let stdout = child.stdout.take().ok_or("no worker stdout")?;
+    let (tx, rx) = mpsc::channel::<Option<String>>();
+    std::thread::spawn(move || {
+        let mut r = BufReader::new(stdout);
+        let mut buf: Vec<u8> = vec![];
+        loop {
+            buf.clear();
+            match r.read_until(b'\n', &mut buf) {
+                Ok(0) | Err(_) => { let _ = tx.send(None); break; },
+                Ok(_) => {
+                    if buf.starts_with(MARK.as_bytes()) {
+                        let s = String::from_utf8_lossy(&buf[MARK.len()..]).trim_end().to_string();
+                        if tx.send(Some(s)).is_err() { break; }
+                    }
+                    // anything else is output of the real code (e.g. "exported '...'"): ignored
+                },
+            }
+        }
+    });
+    let mut w = Worker { child, stdin, rx, stderr_path, scratch };
+    // handshake (start-up compiles the seeds; generous under load)
+    match w.rx.recv_timeout(Duration::from_secs(120)) {
+        Ok(Some(s)) => {
+            let v: Value = serde_json::from_str(&s).map_err(|e| format!("worker hello unparsable: {e}: {s}"))?;
+            if v["hello"].as_str() != Some(digest) { w.kill(); return Err(format!("worker seed digest {} differs from parent's {digest} (errors: {})", v["hello"], v["errors"])); }
+            Ok(w)
+        },
+        Ok(None) => { let info = w.death_info(); Err(format!("worker died during start-up: {info}")) },
+        Err(_) => { w.kill(); Err("worker start-up timed out".into()) },
+    }
+}
+
+impl Worker {
+    fn send(&mut self, text: &str) -> bool {
+        match self.stdin.as_mut() {
+            Some(s) => s.write_all(text.as_bytes()).and_then(|_| s.flush()).is_ok(),
+            None => false,
+        }
+    }
+    fn kill(&mut self) {
+        self.stdin = None;
+        let _ = self.child.kill();
+        let _ = self.child.wait();
+        let _ = std::fs::remove_dir_all(&self.scratch);
+    }
+    /// wait for the (dead) child and describe how it died
+    fn death_info(&mut self) -> String {
+        self.stdin = None;
+        let status = self.child.wait();
+        let _ = std::fs::remove_dir_all(&self.scratch);
+        let st = match status {
+            Ok(s) => {
+                use std::os::unix::process::ExitStatusExt;
+                match (s.code(), s.signal()) { (Some(c), _) => format!("exit code {c}"), (None, Some(sig)) => format!("signal {sig}"), _ => "unknown status".into() }
+            },
+            Err(e) => format!("wait failed: {e}"),
+        };
+        let tail = std::fs::read(&self.stderr_path).map(|b| { let s = String::from_utf8_lossy(&b).to_string(); let t: Vec<&str> = s.lines().rev().take(3).collect(); t.into_iter().rev().collect::<Vec<_>>().join(" | ") }).unwrap_or_default();
+        format!("{st}; stderr: {}", squash_ws(&tail))
+    }
+    fn finish(mut self) {
+        self.stdin = None; // EOF: the worker exits by itself
+        let t0 = Instant::now();
+        loop {
+            match self.child.try_wait() { Ok(Some(_)) => break, Ok(None) if t0.elapsed() < Duration::from_secs(5) => std::thread::sleep(Duration::from_millis(5)), _ => { let _ = self.child.kill(); let _ = self.child.wait(); break; } }
+        }
+        let _ = std::fs::remove_dir_all(&self.scratch);
+        let _ = std::fs::remove_file(&self.stderr_path);
+    }
+}
+
+fn squash_ws(s: &str) -> String { s.split_whitespace().collect::<Vec<_>>().join(" ") }
+
+#[derive(Debug, Clone)]
+struct RunRes { bit: u8, class: String, viol: Option<String>, ms: u64, diag: Option<String> }
+
+#[derive(Debug, Clone)]
+enum CaseResult {
+    Done { runs: Vec<RunRes>, hwm_mb: Option<u64> },
+    /// the worker died (`abort`) or stopped answering (`timeout`) on this case, twice
+    Died { kind: &'static str, info: String },
+    /// protocol-level problem
+    Broken(String),
+}
+
+fn parse_reply(s: &str) -> Result<(u64, CaseResult), String> {
+    let v: Value = serde_json::from_str(s).map_err(|e| format!("unparsable worker reply: {e}: {s}"))?;
+    let id = v["i"].as_u64().ok_or_else(|| format!("reply without id: {s}"))?;
+    if let Some(e) = v["e"].as_str() { return Ok((id, CaseResult::Broken(e.to_string()))); }
+    let mut runs = vec![];
+    for r in v["r"].as_array().ok_or("reply without runs")? {
+        runs.push(RunRes {
+            bit: r[0].as_u64().unwrap_or(0) as u8,
+            class: r[1].as_str().unwrap_or("?").to_string(),
+            viol: r[2].as_str().map(String::from),
+            ms: r[3].as_u64().unwrap_or(0),
+            diag: r[4].as_str().map(String::from),
+        });
+    }
+    Ok((id, CaseResult::Done { runs, hwm_mb: v["m"].as_u64() }))
+}
+
+fn case_line(c: &Case) -> String { format!("{} {} {} {}\n", c.id, c.seed, fault_to_string(&c.ops), c.runs) }
+
+enum Iso { Result(CaseResult), Died(String), Timeout, Machinery(String) }
+
+/// run exactly one case in a fresh worker
+fn run_isolated(tier: &str, digest: &str, line: &str) -> Iso {
+    let mut w = match spawn_worker(tier, digest) { Ok(w) => w, Err(e) => return Iso::Machinery(e) };
+    if !w.send(line) { let info = w.death_info(); return Iso::Died(info); }
+    match w.rx.recv_timeout(ANSWER_TIMEOUT + Duration::from_secs(10)) {
+        Ok(Some(s)) => { w.finish(); match parse_reply(&s) { Ok((_, r)) => Iso::Result(r), Err(e) => Iso::Machinery(e) } },
+        Ok(None) => Iso::Died(w.death_info()),
+        Err(_) => { w.kill(); Iso::Timeout },
+    }
+}
+
+struct Pool {
+    tier: String,
+    digest: String,
+    slots: Vec<Mutex<Option<Worker>>>,
+    machinery: Mutex<Vec<String>>,
+    /// death signatures (format, kind, class) confirmed so far -> count of confirmations
+    confirmed: Mutex<HashMap<String, u32>>,
+    respawns: AtomicUsize,
+}
+
+impl Pool {
+    fn new(tier: &str, digest: &str, n: usize) -> Pool {
+        Pool { tier: tier.into(), digest: digest.into(), slots: (0..n).map(|_| Mutex::new(None)).collect(), machinery: Mutex::new(vec![]),
+               confirmed: Mutex::new(HashMap::new()), respawns: AtomicUsize::new(0) }
+    }
+
+    fn note_machinery(&self, s: String) { let mut g = self.machinery.lock().unwrap(); if g.len() < 50 { g.push(s); } }
+
+    /// The in-flight case of a dead/hung worker: confirm in a fresh worker.
+    fn handle_death(&self, c: &Case, kind: &'static str, info: String, death_key: &str) -> CaseResult {
+        let key = format!("{kind}:{death_key}");
+        if self.confirmed.lock().unwrap().get(&key).copied().unwrap_or(0) >= 2 {
+            return CaseResult::Died { kind, info: format!("{info} (not re-confirmed: this signature was confirmed twice before)") };
+        }
+        match run_isolated(&self.tier, &self.digest, &case_line(c)) {
+            Iso::Died(info2) => { *self.confirmed.lock().unwrap().entry(format!("abort:{death_key}")).or_insert(0) += 1; CaseResult::Died { kind: "abort", info: format!("{info2} (first: {kind}: {info})") } },
+            Iso::Timeout => { *self.confirmed.lock().unwrap().entry(format!("timeout:{death_key}")).or_insert(0) += 1; CaseResult::Died { kind: "timeout", info: format!("no answer within {}s, twice (first: {kind}: {info})", ANSWER_TIMEOUT.as_secs()) } },
+            Iso::Result(r) => {
+                self.note_machinery(format!("irreproducible worker {kind} on case seed#{} fault {} runs {} ({info}); a fresh worker completed it", c.seed, fault_to_string(&c.ops), c.runs));
+                r
+            },
+            Iso::Machinery(e) => { self.note_machinery(format!("confirmation run failed: {e}")); CaseResult::Broken(e) },
+        }
+    }
+
+    /// Run all cases; results in case order (None = not run because the deadline passed).
+    /// `death_key(case)` names the (format, fault class) of a case for abort/timeout memoization.
+    fn run(&self, cases: &[Case], deadline: Instant, death_key: &(dyn Fn(&Case) -> String + Sync)) -> Vec<Option<CaseResult>> {
+        let next = AtomicUsize::new(0);
+        let results: Mutex<Vec<Option<CaseResult>>> = Mutex::new((0..cases.len()).map(|_| None).collect());
+        std::thread::scope(|s| {
+            for slot in 0..self.slots.len().min((cases.len() + BATCH - 1) / BATCH).max(1) {
+                let (next, results) = (&next, &results);
+                s.spawn(move || {
+                    let mut guard = self.slots[slot].lock().unwrap();
+                    let mut spawn_failures = 0;
+                    loop {
+                        if Instant::now() > deadline { break; }
+                        let start = next.fetch_add(BATCH, Ordering::Relaxed);
+                        if start >= cases.len() { break; }
+                        let end = (start + BATCH).min(cases.len());
+                        let mut pending: VecDeque<usize> = (start..end).collect();
+                        let mut local: Vec<(usize, CaseResult)> = vec![];
+                        while !pending.is_empty() {
+                            if guard.is_none() {
+                                match spawn_worker(&self.tier, &self.digest) {
+                                    Ok(w) => { *guard = Some(w); self.respawns.fetch_add(1, Ordering::Relaxed); },
+                                    Err(e) => {
+                                        spawn_failures += 1;
+                                        self.note_machinery(format!("cannot start worker: {e}"));
+                                        if spawn_failures >= 3 { for i in pending.drain(..) { local.push((i, CaseResult::Broken("no worker".into()))); } break; }
+                                        continue;
+                                    },
+                                }
+                            }
+                            let w = guard.as_mut().unwrap();
+                            let text: String = pending.iter().map(|&i| case_line(&cases[i])).collect();
+                            let sent = w.send(&text);
+                            // read answers in order (even if the send failed midway, the worker may have answered some)
+                            let mut dead: Option<(&'static str, String)> = None;
+                            while let Some(&i) = pending.front() {
+                                match w.rx.recv_timeout(ANSWER_TIMEOUT) {
+                                    Ok(Some(sline)) => match parse_reply(&sline) {
+                                        Ok((id, r)) if id == cases[i].id => { pending.pop_front(); local.push((i, r)); },
+                                        Ok((id, _)) => { self.note_machinery(format!("worker answered case {id}, expected {}", cases[i].id)); },
+                                        Err(e) => { self.note_machinery(e.clone()); pending.pop_front(); local.push((i, CaseResult::Broken(e))); },
+                                    },
+                                    Ok(None) => { dead = Some(("abort", w.death_info())); break; },
+                                    Err(_) => { w.kill(); dead = Some(("timeout", format!("no answer within {}s", ANSWER_TIMEOUT.as_secs()))); break; },
+                                }
+                            }
+                            if let Some((kind, info)) = dead {
+                                *guard = None;
+                                if let Some(i) = pending.pop_front() {
+                                    let r = self.handle_death(&cases[i], kind, info, &death_key(&cases[i]));
+                                    local.push((i, r));
+                                }
+                            } else if !sent && !pending.is_empty() {
+                                // cannot happen (a failed send means a dead worker => EOF above), but never loop forever
+                                if let Some(mut w) = guard.take() { w.kill(); }
+                            }
+                        }
+                        let mut g = results.lock().unwrap();
+                        for (i, r) in local { g[i] = Some(r); }
+                    }
+                });
+            }
+        });
+        results.into_inner().unwrap()
+    }
+
+    fn shutdown(&self) {
+        for s in &self.slots { if let Some(w) = s.lock().unwrap().take() { w.finish(); } }
+    }
+}
+
+// =============================================================================================
+// aggregation
+
+struct Viol { count: u64, first_id: u64, detail: Value }
+
+struct Agg {
+    evaluations: u64,
+    transitions: u64,
+    nontrivial: u64,
+    outcomes: BTreeMap<String, u64>,
+    viols: BTreeMap<String, Viol>,
+    /// per seed: class of each run of the unfaulted seed
+    seed_class: Vec<BTreeMap<u8, String>>,
+    slow_unconfirmed: u64,
+    broken: u64,
+    max_ms: u64,
+}
+
+fn hex(b: &[u8]) -> String { b.iter().map(|x| format!("{x:02x}")).collect() }
+
+fn witness(seeds: &[Seed], c: &Case, class: &str, run: &str, kind: &str, extra: Value) -> Value {
+    let s = &seeds[c.seed];
+    let bytes = apply_fault(&s.bytes, &c.ops);
+    let mut v = json!({
+        "format": s.fmt(), "game": s.game.as_str(), "seed": s.name, "seed_len": s.bytes.len(), "compiled_seed": s.compiled,
+        "fault": fault_to_string(&c.ops), "fault_class": class, "run": run, "kind": kind, "input_len": bytes.len(), "info": extra,
+    });
+    if bytes.len() <= 768 { v["input_hex"] = json!(hex(&bytes)); }
+    v
+}
+
+impl Agg {
+    fn new(nseeds: usize) -> Agg {
+        Agg { evaluations: 0, transitions: 0, nontrivial: 0, outcomes: BTreeMap::new(), viols: BTreeMap::new(), seed_class: vec![BTreeMap::new(); nseeds],
+              slow_unconfirmed: 0, broken: 0, max_ms: 0 }
+    }
+    fn violation(&mut self, sig: String, id: u64, detail: impl FnOnce() -> Value) {
+        match self.viols.get_mut(&sig) {
+            Some(v) => { v.count += 1; if id < v.first_id { v.first_id = id; v.detail = detail(); } },
+            None => { self.viols.insert(sig, Viol { count: 1, first_id: id, detail: detail() }); },
+        }
+    }
+}
+
+// =============================================================================================
+// the check
+
+fn tier_is_thorough(tier: &str) -> bool { tier == "thorough" }
+
+pub fn run(tier: &str) -> Report {
+    if std::env::var(WORKER_ENV).is_ok() { worker_main(); }
+    let mut rep = Report::new("C16", tier, "fault_enumeration");
+    rep.rule = "the outcome class (ok / ok+warning / first error line with digits squashed / panic / abort) of the default decompilation of the faulted input differs from that of the unfaulted seed, i.e. the fault was noticed".into();
+    let thorough = tier_is_thorough(tier);
+    // leave a margin for aggregation / confirmation runs
+    let deadline = rep.deadline() - Duration::from_secs(if thorough { 150 } else { 10 });
+
+    let (seeds, notes, errors) = build_seeds();
+    for e in errors { rep.machinery_errors.push(format!("seed construction: {e}")); }
+    for n in &notes { rep.discard(&format!("seed-note: {}", n.chars().take(160).collect::<String>())); }
+    if seeds.is_empty() { rep.machinery_errors.push("no seeds".into()); return rep; }
+    let digest = seeds_digest(&seeds);
+    let dump = std::env::var("VERIF_C16_DUMP").is_ok();
+
+    let mut gen = Gen::new(&seeds);
+    for (i, s) in seeds.iter().enumerate() {
+        if let Some(e) = &gen.states[i].walker_error { rep.discard(&format!("no structure map for seed {} (walker: {}): byte faults and truncations only", s.name, e.chars().take(100).collect::<String>())); }
+        if dump { eprintln!("seed {i} {} {:?}/{} len={} fields={}", s.name, s.kind, s.game.as_str(), s.bytes.len(), gen.states[i].fields.len()); }
+    }
+
+    let pool = Pool::new(tier, &digest, n_threads());
+    let mut agg = Agg::new(seeds.len());
+    let mut cut: Option<String> = None;
+    let mut phases_done: Vec<String> = vec![];
+
+    // ---- run a list of cases and fold the results
+    let mut run_cases = |gen: &Gen, agg: &mut Agg, rep: &mut Report, cases: &[Case], what: &str| -> bool {
+        if cases.is_empty() { return true; }
+        let dk = |c: &Case| format!("{}:{}", seeds[c.seed].fmt(), gen.classes.name(c.class));
+        let results = pool.run(cases, deadline, &dk);
+        let mut complete = true;
+        for (c, r) in cases.iter().zip(results) {
+            let Some(r) = r else { complete = false; continue };
+            let seed = &seeds[c.seed];
+            let fmt = seed.fmt();
+            let class = gen.classes.name(c.class).to_string();
+            agg.transitions += 1;
+            let mut default_class: Option<String> = None;
+            match r {
+                CaseResult::Done { runs, hwm_mb } => {
+                    for rr in &runs {
+                        agg.evaluations += 1;
+                        agg.max_ms = agg.max_ms.max(rr.ms);
+                        *agg.outcomes.entry(format!("{fmt}|{}|{}", if rr.bit == RUN_EXTRACT { "extract" } else { "decompile" }, rr.class)).or_insert(0) += 1;
+                        if c.ops.is_empty() { agg.seed_class[c.seed].insert(rr.bit, rr.class.clone()); }
+                        if rr.bit == RUN_DEFAULT { default_class = Some(rr.class.clone()); }
+                        if let Some(sig) = &rr.viol {
+                            let kind = if rr.class == "panic" { "panic" } else { "diagnostic" };
+                            agg.violation(sig.clone(), c.id, || witness(&seeds, c, &class, run_label(rr.bit), kind, json!({"diag": rr.diag})));
+                        }
+                        if rr.ms > SLOW_MS && seed.bytes.len() < 4096 {
+                            // confirm in a fresh worker
+                            let one = Case { runs: rr.bit, ..c.clone() };
+                            let again = match run_isolated(tier, &digest, &case_line(&one)) { Iso::Result(CaseResult::Done { runs, .. }) => runs.first().map(|x| x.ms), Iso::Timeout => Some(u64::MAX), _ => None };
+                            if again.map_or(false, |ms| ms > SLOW_MS) {
+                                agg.violation(format!("C16:{fmt}:slow:{class}"), c.id, || witness(&seeds, c, &class, run_label(rr.bit), "slow", json!({"ms": [rr.ms, again]})));
+                            } else { agg.slow_unconfirmed += 1; }
+                        }
+                    }
+                    if let Some(mb) = hwm_mb {
+                        let again = match run_isolated(tier, &digest, &case_line(c)) { Iso::Result(CaseResult::Done { hwm_mb, .. }) => hwm_mb, _ => None };
+                        if again.is_some() {
+                            agg.violation(format!("C16:{fmt}:memory:{class}"), c.id, || witness(&seeds, c, &class, "all", "memory", json!({"peak_rss_mb": [mb, again]})));
+                        }
+                    }
+                },
+                CaseResult::Died { kind, info } => {
+                    agg.evaluations += 1;
+                    *agg.outcomes.entry(format!("{fmt}|worker|{kind}")).or_insert(0) += 1;
+                    default_class = Some(kind.to_string());
+                    let runs: Vec<&str> = RUNS.iter().filter(|r| c.runs & r.0 != 0).map(|r| r.1).collect();
+                    agg.violation(format!("C16:{fmt}:{kind}:{class}"), c.id, || witness(&seeds, c, &class, &runs.join(","), kind, json!({"death": info})));
+                },
+                CaseResult::Broken(e) => { agg.broken += 1; if agg.broken <= 5 { rep.machinery_errors.push(format!("case {} ({}): {e}", c.id, fault_to_string(&c.ops))); } },
+            }
+            if !c.ops.is_empty() {
+                if let (Some(d), Some(base)) = (default_class, agg.seed_class[c.seed].get(&RUN_DEFAULT)) { if &d != base { agg.nontrivial += 1; } }
+            }
+        }
+        if !complete { return false; }
+        let _ = what;
+        true
+    };
+
+    // ---- phase 0: the unfaulted seeds (their outcome classes are the baseline of the non-trivial rule)
+    let mut base_cases = vec![];
+    for i in 0..seeds.len() { base_cases.extend(gen.baseline(i)); }
+    if !run_cases(&gen, &mut agg, &mut rep, &base_cases, "baseline") { cut = Some("wall cap during the baseline phase".into()); }
+    for (i, s) in seeds.iter().enumerate() {
+        let cls = agg.seed_class[i].get(&RUN_DEFAULT).cloned().unwrap_or_else(|| "<not run>".into());
+        if dump { eprintln!("seed {} baseline: {:?}", s.name, agg.seed_class[i]); }
+        if !cls.starts_with("ok") { rep.discard(&format!("seed {} itself does not decompile cleanly: {}", s.name, cls.chars().take(120).collect::<String>())); }
+    }
+    if cut.is_none() { phases_done.push(format!("baseline({} seeds)", seeds.len())); }
+
+    // ---- phase A: truncations, field faults, string faults, 7-value byte faults of every seed
+    let order: Vec<usize> = { let mut v: Vec<usize> = (0..seeds.len()).collect(); v.sort_by_key(|&i| (seeds[i].bytes.len(), i)); v };
+    if cut.is_none() {
+        // all seeds in one case list (no barrier between seeds); ordered smallest seed first
+        let mut cases = vec![];
+        for &i in &order { cases.extend(gen.primary(i, false)); }
+        if dump { eprintln!("phase A: {} cases", cases.len()); }
+        if run_cases(&gen, &mut agg, &mut rep, &cases, "primary") { phases_done.push("A: every seed x {truncation@every offset, field values, string faults, every offset x 7 byte values}; all option sets on truncations/field faults".into()); }
+        else { cut = Some("wall cap during phase A (primary faults)".into()); }
+    }
+
+    if thorough && cut.is_none() {
+        // ---- phase B: every option set on the byte faults too
+        let mut cases = vec![];
+        for &i in &order { cases.extend(gen.primary(i, true)); }
+        if run_cases(&gen, &mut agg, &mut rep, &cases, "primary-all-options") { phases_done.push("B: all option sets on every fault of phase A".into()); }
+        else { cut = Some("wall cap during phase B (all option sets on byte faults)".into()); }
+    }
+    if thorough && cut.is_none() {
+        // ---- phase C: every offset x all 256 byte values on the 3 smallest seeds per format
+        let mut cases = vec![];
+        let mut per_fmt: BTreeMap<&str, usize> = BTreeMap::new();
+        let mut chosen = vec![];
+        for &i in &order { let k = per_fmt.entry(seeds[i].fmt()).or_insert(0); if *k < 3 { *k += 1; chosen.push(seeds[i].name.clone()); cases.extend(gen.all_values(i)); } }
+        if run_cases(&gen, &mut agg, &mut rep, &cases, "all-256") { phases_done.push(format!("C: every offset x 256 byte values on {}", chosen.join(","))); }
+        else { cut = Some("wall cap during phase C (256 values per offset)".into()); }
+    }
+    if thorough && cut.is_none() {
+        // ---- phase D: pairs of field faults on the small seeds, seed by seed, smallest first
+        let small: Vec<usize> = order.iter().copied().filter(|&i| seeds[i].bytes.len() <= 1700 && !gen.states[i].fields.is_empty()).collect();
+        let mut done = 0;
+        let mut capped_seeds = vec![];
+        for &i in &small {
+            if Instant::now() > deadline { cut = Some(format!("wall cap during phase D (field-fault pairs): {done}/{} seeds", small.len())); break; }
+            let (cases, capped) = gen.pairs(i, 400_000);
+            if capped { capped_seeds.push(seeds[i].name.clone()); }
+            if !run_cases(&gen, &mut agg, &mut rep, &cases, "pairs") { cut = Some(format!("wall cap during phase D (field-fault pairs): {done}/{} seeds", small.len())); break; }
+            done += 1;
+        }
+        if cut.is_none() { phases_done.push(format!("D: pairs of field faults (5 values each) on {} seeds <= 1700 bytes{}", small.len(), if capped_seeds.is_empty() { String::new() } else { format!("; capped at 400k pairs for {}", capped_seeds.join(",")) })); }
+    }
+    pool.shutdown();
+    drop(run_cases);
+
+    // ---- fold into the report
+    for e in pool.machinery.lock().unwrap().iter() { rep.machinery_errors.push(e.clone()); }
+    rep.evaluations = agg.evaluations;
+    rep.transitions = agg.transitions;
+    rep.states = gen.distinct;
+    rep.nontrivial = agg.nontrivial;
+    rep.traces_validated = 0;
+    for (k, n) in &agg.outcomes { rep.outcome_n(k, *n); }
+    rep.discarded.insert("generated faults byte-identical to an already scheduled input (deduplicated)".into(), gen.duplicates);
+    let mut counts = serde_json::Map::new();
+    for (sig, v) in &agg.viols {
+        counts.insert(sig.clone(), json!(v.count));
+        rep.fail(sig.clone(), v.detail.clone());
+    }
+    rep.extra.insert("failure_counts".into(), Value::Object(counts));
+    rep.extra.insert("seeds".into(), json!(seeds.iter().enumerate().map(|(i, s)| json!({"name": s.name, "format": s.fmt(), "game": s.game.as_str(), "len": s.bytes.len(), "fields": gen.states[i].fields.len(), "baseline": agg.seed_class[i].get(&RUN_DEFAULT)})).collect::<Vec<_>>()));
+    rep.extra.insert("workers".into(), json!({"n": pool.slots.len(), "spawned": pool.respawns.load(Ordering::Relaxed), "address_space_limit_kib": ULIMIT_V_KIB, "answer_timeout_s": ANSWER_TIMEOUT.as_secs(), "slow_unconfirmed": agg.slow_unconfirmed, "max_run_ms": agg.max_ms}));
+    // samples: a few fault descriptors
+    for (k, c) in base_cases.iter().take(2).enumerate() { let _ = k; rep.sample(json!({"seed": seeds[c.seed].name, "fault": "n (unfaulted seed)", "runs": c.runs})); }
+    {
+        let mut g2 = Gen::new(&seeds[..1]);
+        let cs = g2.primary(0, false);
+        let n = cs.len();
+        for idx in [0, n / 5, 2 * n / 5, 3 * n / 5, 4 * n / 5, n.saturating_sub(1)] {
+            if let Some(c) = cs.get(idx) { rep.sample(json!({"seed": seeds[0].name, "fault": fault_to_string(&c.ops), "class": g2.classes.name(c.class), "runs": RUNS.iter().filter(|r| c.runs & r.0 != 0).map(|r| r.1).collect::<Vec<_>>() })); }
+        }
+    }
+    rep.cap_hit = cut;
+    rep.exhaustive = rep.cap_hit.is_none();
+    rep.bound_completed = phases_done.join(" | ");
+    rep.assumptions = vec![
+        "the fault space is the enumerated one (single faults, and pairs of field faults in the thorough tier), not all byte strings".into(),
+        "in-process drivers mirror cli_def::*::run (core mapfile of the game, no user mapfiles); dev-profile semantics (overflow checks, debug assertions) define 'panic'".into(),
+        format!("memory is judged by worker death under an {} GiB address-space limit and by peak RSS > {} MiB; time by {} s per run (inputs < 4 KiB) and {} s without an answer", ULIMIT_V_KIB >> 20, RSS_LIMIT_MB, SLOW_MS / 1000, ANSWER_TIMEOUT.as_secs()),
+        "stack-based TH10+ ECL has no independent walker: byte faults and truncations only".into(),
+    ];
+    rep.explanation = "Every enumerated fault of every seed was applied and the real reader + decompiler (4 option sets) + ANM image extraction were run on it in isolated worker processes; a violation is a panic, a worker death/timeout reproduced in a fresh worker, an Err without an error-severity diagnostic, or an error diagnostic that does not name the input file. One failure is reported per signature with the first (smallest-seed) witness; per-signature counts are in failure_counts.".into();
+    rep
+}
+
+// =============================================================================================
+// replay
+
+pub fn replay(detail: &Value) -> i32 {
+    if std::env::var(WORKER_ENV).is_ok() { worker_main(); }
+    let (seeds, _notes, _errors) = build_seeds();
+    let digest = seeds_digest(&seeds);
+    let name = detail["seed"].as_str().unwrap_or("");
+    let Some(si) = seeds.iter().position(|s| s.name == name) else { println!("replay: unknown seed {name:?}"); return 2 };
+    let fault = detail["fault"].as_str().unwrap_or("n");
+    let ops = match fault_from_string(fault) { Ok(o) => o, Err(e) => { println!("replay: {e}"); return 2 } };
+    let mut runs: u8 = 0;
+    for l in detail["run"].as_str().unwrap_or("default").split(',') { if l == "all" { runs |= seeds[si].all_runs(); } else if let Some(b) = run_bit_of(l) { runs |= b; } }
+    if runs == 0 { runs = RUN_DEFAULT; }
+    let c = Case { id: 0, seed: si, ops, class: 0, runs };
+    let bytes = apply_fault(&seeds[si].bytes, &c.ops);
+    println!("replay C16: seed {} ({} {}, {} bytes), fault {}, runs {:?}, input {} bytes", name, seeds[si].fmt(), seeds[si].game.as_str(), seeds[si].bytes.len(), fault, detail["run"], bytes.len());
+    if bytes.len() <= 768 { println!("  input hex: {}", hex(&bytes)); }
+    let kind = detail["kind"].as_str().unwrap_or("");
+    match run_isolated("quick", &digest, &case_line(&c)) {
+        Iso::Died(info) => { println!("  worker DIED: {info}"); drive::cleanup_scratch(); 1 },
+        Iso::Timeout => { println!("  worker did not answer within {} s (killed)", ANSWER_TIMEOUT.as_secs() + 10); drive::cleanup_scratch(); 1 },
+        Iso::Machinery(e) => { println!("  machinery error: {e}"); drive::cleanup_scratch(); 2 },
+        Iso::Result(CaseResult::Done { runs, hwm_mb }) => {
+            let mut bad = false;
+            for r in &runs {
+                println!("  run {:<12} -> class {:?} ({} ms){}", run_label(r.bit), r.class, r.ms, r.viol.as_ref().map(|v| format!("  VIOLATION {v}")).unwrap_or_default());
+                if let Some(d) = &r.diag { for l in d.lines() { println!("      | {l}"); } }
+                if r.viol.is_some() { bad = true; }
+                if r.ms > SLOW_MS && seeds[si].bytes.len() < 4096 { println!("      SLOW"); bad = true; }
+            }
+            if let Some(mb) = hwm_mb { println!("  peak RSS {mb} MiB > {RSS_LIMIT_MB} MiB"); bad = true; }
+            if !bad && (kind == "abort" || kind == "timeout") { println!("  the worker survived this time"); }
+            drive::cleanup_scratch();
+            if bad { 1 } else { 0 }
+        },
+        Iso::Result(CaseResult::Died { kind, info }) => { println!("  {kind}: {info}"); drive::cleanup_scratch(); 1 },
+        Iso::Result(CaseResult::Broken(e)) => { println!("  machinery error: {e}"); drive::cleanup_scratch(); 2 },
+    }
+}
